@@ -561,3 +561,4 @@ MANIFEST = {
     "ref": "DESIGN.md §4 C17",
 }
 MANIFEST["text"] += " Derived-dimension specs: 17 specs naming derived dimensions alone or in expressions with their own exponent ('[mass]/[volume]', '1/[volume]', '[velocity]**2', '[pressure]', ...) x 14 values through ureg.check and Quantity.check against hand-written (L, M, T) exponents, and 8x8 two-parameter spec pairs x 7x7 value pairs."
+MANIFEST["text"] += ' Zero-magnitude quantities and bare 0 are in the value alphabets (by position and by keyword over a default).'
